@@ -518,7 +518,7 @@ func quantShuffled[S, D constraints.Integer](w *numWriter, rng *rand.Rand, fn, s
 	}()
 	// the instantiations run in parallel goroutines: a block of 300 samples converted 150 times while the other
 	// formats of the same source type are being converted next door
-	blk := make([]S, 300)
+	blk := make([]S, 1100) // longer than any plausible internal block (512, 1024)
 	for i := range blk {
 		blk[i] = xs[rng.Intn(len(xs))]
 	}
